@@ -481,7 +481,9 @@ class SecopClient(ProxyClient):
                     noactivity += 1
                     if noactivity % 5 == 0:
                         # send ping to check if the connection is still alive
-                        self.queue_request(HEARTBEATREQUEST, str(noactivity))
+                        # (not queue_request: connect() holds self._lock while it waits for
+                        # the replies to its requests, and it is this thread that has to read them)
+                        self._queue_request(HEARTBEATREQUEST, str(noactivity))
                     continue
                 self.log.debug('RX: %r', reply)
                 noactivity = 0
@@ -765,8 +767,11 @@ class SecopClient(ProxyClient):
 
     def queue_request(self, action, ident=None, data=None):
         """make a request"""
-        request = action, ident, data
         self.connect()  # make sure we are connected
+        return self._queue_request(action, ident, data)
+
+    def _queue_request(self, action, ident=None, data=None):
+        request = action, ident, data
         # the last item is for the reply
         entry = [request, Event(), None]
         self.txq.put(entry, timeout=3)
